@@ -82,3 +82,31 @@ def cover_merge(parts):
         for k, v in p.items():
             tot[int(k)] = tot.get(int(k), 0) + v
     return {"detected_groups_covered": len(tot), "detected_groups_missing": [g for g in range(1, 231) if g not in tot]}
+
+
+def analyzer_for(c, desc, out):
+    """A SymmetryAnalyzer holding crystal c: for three quarters of the cases a fresh object, for one quarter an object that
+    first analysed another structure and was then handed the crystal through the public set_system() - alternately as a
+    new Atoms object and as the SAME Atoms object modified in place (history dependence of the cached results)."""
+    from ase.build import bulk
+    from matid.symmetry import SymmetryAnalyzer
+    from vlib.case import dhash
+    h = int(dhash(desc), 16)
+    if h % 4 != 0:
+        out.cls("analyser:fresh")
+        return SymmetryAnalyzer(c.at, symmetry_tol=TOL)
+    live = bulk("NaCl", "rocksalt", a=5.64, cubic=True) if (h >> 3) % 2 else bulk("Te", "hcp", a=4.45, c=5.93)
+    an = SymmetryAnalyzer(live, symmetry_tol=TOL)
+    an.get_conventional_system()
+    an.get_wyckoff_sets_conventional(False)
+    if (h >> 2) % 2:
+        out.cls("analyser:reused-inplace")
+        del live[list(range(len(live)))]
+        live.extend(c.at)
+        live.set_cell(c.at.get_cell(), scale_atoms=False)
+        live.set_pbc(True)
+        an.set_system(live)
+    else:
+        out.cls("analyser:reused-new-object")
+        an.set_system(c.at)
+    return an
